@@ -56,7 +56,10 @@ func validateContractRenewal(existing types.FileContractRevision, renewal types.
 		return types.ZeroCurrency, types.ZeroCurrency, errors.New("incorrect unlock hash")
 	}
 
-	expectedBurn := baseStorageRevenue.Add(baseRiskedCollateral)
+	expectedBurn, overflow := baseStorageRevenue.AddWithOverflow(baseRiskedCollateral)
+	if overflow {
+		return types.ZeroCurrency, types.ZeroCurrency, errors.New("expected host burn overflows")
+	}
 	hostBurn, underflow := renewal.ValidHostPayout().SubWithUnderflow(renewal.MissedHostPayout())
 	if underflow {
 		return types.ZeroCurrency, types.ZeroCurrency, errors.New("host valid payout must be greater than host missed payout")
@@ -75,7 +78,10 @@ func validateContractRenewal(existing types.FileContractRevision, renewal types.
 
 	// calculate the locked collateral as the difference between the valid host
 	// payout and the base revenue
-	minValidPayout := pt.ContractPrice.Add(baseStorageRevenue)
+	minValidPayout, overflow := pt.ContractPrice.AddWithOverflow(baseStorageRevenue)
+	if overflow {
+		return types.ZeroCurrency, types.ZeroCurrency, errors.New("minimum host valid payout overflows")
+	}
 	lockedCollateral, underflow = renewal.ValidHostPayout().SubWithUnderflow(minValidPayout)
 	if underflow {
 		return types.ZeroCurrency, types.ZeroCurrency, fmt.Errorf("insufficient host valid payout: expected at least %d got %d", minValidPayout, renewal.ValidHostPayout())
